@@ -188,15 +188,19 @@ def pow (a b : NumRepr) : Res :=
     if 0 ≤ y ∧ y < 4294967296 then finish (checkedPow x y.toNat) else .err
   | none => .err
 
-/-- `ops::neg` on an integer: the literal `2^127` (only representable as `u128`) negates to
-    `i128::MIN`; everything else goes through `i128::try_from` and `checked_mul(-1)` -/
+/-- `ops::neg` on an integer.  The "special case for the largest i128 that can still be
+    represented" returns `Value::from(MIN_I128_AS_POS_U128)`, i.e. the *positive* `u128` `2^127`
+    again (pinned by the existing `vm@literals` snapshot; C08's recorded known finding);
+    everything else goes through `i128::try_from` and `checked_mul(-1)` -/
 def neg (a : NumRepr) : Res :=
   let general : Res :=
     match toI128 a with
     | some x => finish (checkedMul x (-1))
     | none => .err
   match a with
-  | .u128 n => if n = 170141183460469231731687303715884105728 then .ok (.i128 minI128) else general
+  | .u128 n =>
+    if n = 170141183460469231731687303715884105728 then .ok (.u128 170141183460469231731687303715884105728)
+    else general
   | _ => general
 
 /-- the six binary integer operators -/
